@@ -296,3 +296,9 @@ impl IsogenyMap for G2 {
         eval_iso(self, [&XNUM[..], &XDEN[..], &YNUM[..], &YDEN[..]]);
     }
 }
+
+/// Verification hook: read access to the 3-isogeny coefficient tables (xnum, xden, ynum, yden).
+#[cfg(feature = "verif-hooks")]
+pub fn verif_tables() -> [&'static [Fq2]; 4] {
+    [&XNUM[..], &XDEN[..], &YNUM[..], &YDEN[..]]
+}
